@@ -51,8 +51,10 @@ def rtu_bcpos(S):
         return 6
     if S.name == "ReadWriteMultipleRegistersRequest":
         return 10
+    if S.name == "ReadFifoQueueResponse":
+        return 3            # (16-bit byte count at positions 2..3)
     if S.name in ("ReadFileRecordRequest", "WriteFileRecordRequest", "ReadFileRecordResponse", "WriteFileRecordResponse",
-                  "GetCommEventLogResponse", "ReportSlaveIdResponse", "ReadFifoQueueResponse", "ReadDeviceInformationResponse"):
+                  "GetCommEventLogResponse", "ReportSlaveIdResponse", "ReadDeviceInformationResponse"):
         return 2
     return None
 
@@ -241,7 +243,9 @@ def obligations(tier):
         # (the last pair ends in a request without data: the shortest frame there is, 8 bytes on TCP)
         "req": [("WriteSingleRegisterRequest",), ("ReadCoilsRequest", "WriteSingleRegisterRequest"),
                 ("WriteSingleRegisterRequest", "ReadExceptionStatusRequest")],
-        "rsp": [("ReadHoldingRegistersResponse",), ("WriteSingleCoilResponse", "ReadHoldingRegistersResponse")],
+        # (the FIFO response has the odd header: a 16-bit byte count)
+        "rsp": [("ReadHoldingRegistersResponse",), ("WriteSingleCoilResponse", "ReadHoldingRegistersResponse"),
+                ("WriteSingleCoilResponse", "ReadFifoQueueResponse")],
     }
     if tier != "quick":
         combos["req"] += [("WriteMultipleRegistersRequest",), ("MaskWriteRegisterRequest", "ReadExceptionStatusRequest")]
@@ -259,6 +263,8 @@ def obligations(tier):
                         continue      # two ASCII frames x every pair of cuts: thorough tier
                     if tier == "quick" and names[-1] == "ReadExceptionStatusRequest" and k == 2:
                         continue
+                    if names[-1] == "ReadFifoQueueResponse" and framing != "rtu":
+                        continue      # (added for the RTU sizing of that response)
                     base = "chunk.%s.%s.%s.cuts%d" % (framing, d, "+".join(n.replace("Request", "Rq").replace("Response", "Rs") for n in names), k)
                     bounds = "%s framing, stream of %d frame(s) %s with all field values/unit/tid symbolic; every schedule with exactly %d cut(s) (empty reads included)" % (
                         framing, len(names), list(names), k)
